@@ -193,7 +193,11 @@ def record_view(ds, plan):
             key = uid[: -len(sfx)] if sfx and uid.endswith(sfx) else uid
             if key in out:
                 dups.append(key)
-            out[key] = (kind, m.read())
+            try:
+                content = m.read()
+            except Exception as e:  # noqa: BLE001  (a member that cannot be read is an observation)
+                content = f"<read failed: {type(e).__name__}: {e}>"
+            out[key] = (kind, content)
     return out, dups
 
 
